@@ -10,8 +10,11 @@ CHECKS = {
  "C05": ("model_checking", "every returned Jacobian validated against the right-Jacobian expressed through Adj, Jr series and generators of the model (LieMath.tla), unit-aware 1e-6 tolerance", "TLA+ model (Jacobian series in exact arithmetic) + trace validation"),
  "C06": ("model_checking", "rjac/ljac and inverses, Adj, smallAdj validated against the series / conjugation / bracket definitions evaluated exactly by TLC", "TLA+ model + trace validation"),
  "C07": ("model_checking", "generators, hat, vee, bracket, inner weights validated exactly against the documented generator basis of Groups.tla; algebra identities model-checked on the integer tangent lattice", "TLA+ model (exhaustive integer lattice) + trace validation"),
+ "C08": ("model_checking", "NormDrift.tla: finite integer model of the unit-norm deviation under every element-producing operation with nondeterministic rounding and the renormalisation branch; TLC's fixpoint covers histories of unbounded length (negative control without renormalisation fails). Long histories (random walks over 14 operation kinds, repeated squaring, small-angle +=, chains) of the real library in assertion-enabled and NDEBUG builds are validated step by step by NormTrace.tla (exact norm from coefficient bits, acceptance band, no exception, measured rounding envelope)", "TLA+ finite-state model (unbounded histories) + trace validation of long recorded histories in two build modes"),
  "C09": ("model_checking", "Manif.tla abstract register machine (results are functions of operation and operand values only; one location written per call) explored exhaustively for short histories; every single call (op x destination x operand registers x output mask) and simulated long histories replayed on the real library; ManifHistTrace.tla requires one consistent binding identifier->bits for the whole history: determinism across masks/storage/repetition, operands unmodified, in-place forms equal to the value forms, Jacobian hosts written exactly in their block", "TLA+ abstract machine (TLC exhaustive + simulation) with behaviours replayed on the implementation and validated step by step"),
  "C10": ("model_checking", "the behaviours of Manif.tla replayed with Eigen::Map views (mutable, const, aliasing) over an unaligned user buffer with guard zones and in an AddressSanitizer build; ManifHistTrace.tla checks the whole buffer image after every call (frame condition cell by cell), equality with the owning twin and exact write-through", "TLA+ abstract machine with memory slots; behaviours replayed and validated step by step; ASan observes reads"),
+ "C11": ("model_checking", "BundleLayout.tla enumerates layouts, checks the covering predicate and the direct-product laws of the model; Groups/LieMath handle bundle descriptors generically (block-diagonal matrix group), so every Bundle operation of the real library is validated against the product model, plus exact checks of the five offset tables, element<i>() aliasing, element-wise equality and off-block zeros", "TLA+ layout model + trace validation per generated layout"),
+ "C14": ("model_checking", "StaticInit.tla: C++11 magic-static guard protocol over the dependency DAG of the library's function-local statics, all interleavings of 3 threads (exactly-once, no read before completion, sequential results, termination; two broken protocols and a cyclic table rejected); a header scanner binds the model's static table to the code; TLC-generated contention plans run under ThreadSanitizer in fresh processes and are validated by StaticInitTrace.tla", "TLA+ interleaving model + source scanner binding + TSan schedule runs validated against the spec"),
  "C17": ("model_checking", "DeCasteljau.tla: the transcribed window bookkeeping refines the specification windows on the whole box N<=16,k<=4 (TLC exhaustive, termination, index bounds); every configuration replayed on the real decasteljau with a one-hot trajectory whose output reveals the weights, validated by DeCasteljauTrace.tla", "TLA+ refinement model checked exhaustively + per-configuration replay on the implementation"),
 }
 NOT_YET = {}
